@@ -14,7 +14,7 @@ import (
 )
 
 // evidence alphabet
-var c11Tokens = []string{"assertTrue", "assertEquals-ab", "assertEquals-aa", "println", "printf", "sleep", "helper-asserts", "helper-plain", "verify", "new", "plain-aa", "print", "thread-yield", "own-sleep", "err-println", "assert-on-creation", "sleep-aa", "printf-aa"}
+var c11Tokens = []string{"assertTrue", "assertEquals-ab", "assertEquals-aa", "println", "printf", "sleep", "helper-asserts", "helper-plain", "verify", "new", "plain-aa", "print", "thread-yield", "own-sleep", "err-println", "assert-on-creation", "sleep-aa", "printf-aa", "assertJson", "assertJSON"}
 
 type c11Want struct {
 	Type     string
@@ -60,6 +60,10 @@ func c11Body(tokens []string) ([]jg.Stmt, map[int]*jg.Site) {
 			s := &jg.Site{Kind: "call", Name: "printf"}
 			sites[i] = s
 			body = append(body, jg.St(jg.T("System.out."), jg.S(s), jg.T("(\"x\", \"x\");")))
+		case "assertJson": // two own assertion helpers whose names differ in letter case only
+			body = append(body, jg.St(jg.T("assertJson(a);")))
+		case "assertJSON":
+			body = append(body, jg.St(jg.T("assertJSON(a);")))
 		case "helper-asserts":
 			body = append(body, jg.St(jg.T("helperAsserts();")))
 		case "helper-plain":
@@ -96,6 +100,8 @@ func c11Class(name string, methods []*c11Method) *jg.Class {
 	}
 	cls.Members = append(cls.Members,
 		jg.Member{Method: &jg.Method{Mods: []string{"private"}, Ret: "void", Name: "helperAsserts", Body: []jg.Stmt{jg.St(jg.T("assertNotNull(mock);"))}}},
+		jg.Member{Method: &jg.Method{Mods: []string{"private"}, Ret: "void", Name: "assertJson", Params: []jg.Param{{Type: "int", Name: "x"}}, Body: []jg.Stmt{jg.St(jg.T("flag = x > 0;"))}}},
+		jg.Member{Method: &jg.Method{Mods: []string{"private"}, Ret: "void", Name: "assertJSON", Params: []jg.Param{{Type: "int", Name: "x"}}, Body: []jg.Stmt{jg.St(jg.T("flag = x < 0;"))}}},
 		jg.Member{Method: &jg.Method{Mods: []string{"private"}, Ret: "void", Name: "helperPlain", Body: []jg.Stmt{jg.St(jg.T("prepare();"))}}},
 		jg.Member{Method: &jg.Method{Mods: []string{"private"}, Ret: "void", Name: "prepare", Body: []jg.Stmt{jg.St(jg.T("flag = true;"))}}},
 		jg.Member{Method: &jg.Method{Mods: []string{"private"}, Ret: "void", Name: "sleep", Params: []jg.Param{{Type: "int", Name: "ms"}}, Body: []jg.Stmt{jg.St(jg.T("flag = ms > 0;"))}}},
@@ -195,6 +201,9 @@ func c11Expected(file string, isTestFile bool, methods []*c11Method) []*c11Want 
 			case "assert-on-creation":
 				asserts++
 				count["assertNotNull"]++
+			case "assertJson", "assertJSON":
+				asserts++
+				count[t]++
 			}
 		}
 		switch {
@@ -393,8 +402,13 @@ func c11GenTree(c *engine.C) engine.Case {
 			// multiplicity of one assertion around the threshold
 			rep := []int{0, 4, 5, 6}[c.Choose(4, fmt.Sprintf("%sm%d-repeat", pfx, mi))]
 			if rep > 0 {
-				which := []string{"assertTrue", "assertEquals-ab", "verify", "helper-asserts"}[c.Choose(4, fmt.Sprintf("%sm%d-repeat-what", pfx, mi))]
+				which := []string{"assertTrue", "assertEquals-ab", "verify", "helper-asserts", "assertJson+assertJSON"}[c.Choose(5, fmt.Sprintf("%sm%d-repeat-what", pfx, mi))]
 				for r := 0; r < rep; r++ {
+					if which == "assertJson+assertJSON" {
+						// the calls are split over two callees that differ in case only: neither alone reaches the count
+						tokens = append(tokens, []string{"assertJson", "assertJSON"}[r%2])
+						continue
+					}
 					tokens = append(tokens, which)
 				}
 			}
@@ -428,7 +442,7 @@ func init() {
 	engine.Register(&engine.Spec{
 		ID:    "C11",
 		Title: "Test-smell findings are exactly those evidenced in the test sources",
-		Rule: "X1: (a) full product of evidence sequences of length <=4 (quick) / <=5 (thorough), and all sequences of length <=7 within 2/3 deviations from the default token, over 18 evidence tokens (assertTrue, assertNotNull(new Foo()), Thread.sleep(5, 5), printf with identical arguments, assertEquals(a,b), assertEquals(a,a), println, printf, print, Thread.sleep, helper that asserts, helper that does not, verify, new, non-assert call with identical arguments) in one @Test method; " +
+		Rule: "X1: (a) full product of evidence sequences of length <=4 (quick) / <=5 (thorough), and all sequences of length <=7 within 2/3 deviations from the default token, over 20 evidence tokens (assertTrue, assertNotNull(new Foo()), Thread.sleep(5, 5), printf with identical arguments, assertEquals(a,b), assertEquals(a,a), println, printf, print, Thread.sleep, helper that asserts, helper that does not, verify, new, non-assert call with identical arguments) in one @Test method; " +
 			"(b) deviation-bounded trees of 1..2 classes (location: *Test.java, *Tests.java, src/test/java, production) x 1..3 methods x annotation combination (@Test, @Ignore, both in either order, none, @Before) x bodies x assertion multiplicity 4/5/6 x 12 layouts. " +
 			"Non-trivial = at least one finding is required. Distinct = distinct source trees.",
 		Assumptions: []string{
